@@ -279,12 +279,20 @@ fn write_keys_map_to_disk(keys: HashMap<String, u64>) {
     let keys_file_name = get_keys_map_file_name();
     log::debug!("Will write the keys {} from disk", keys_file_name);
 
-    let mut keys_file = OpenOptions::new()
-        .create(true)
-        .write(true)
-        .open(keys_file_name)
-        .unwrap();
-    bincode::serialize_into(&mut keys_file, &keys.clone()).unwrap();
+    // Written next to the old file and renamed over it: the old file was overwritten in place, so a kill in
+    // the middle left the head of the new map followed by the tail of the old one, which can decode to a map
+    // in which two keys share an id
+    let tmp_file_name = format!("{}.tmp", keys_file_name);
+    {
+        let mut keys_file = OpenOptions::new()
+            .create(true)
+            .write(true)
+            .truncate(true)
+            .open(&tmp_file_name)
+            .unwrap();
+        bincode::serialize_into(&mut keys_file, &keys.clone()).unwrap();
+    }
+    fs::rename(&tmp_file_name, &keys_file_name).unwrap();
 }
 
 fn get_invalidate_file_name() -> String {
